@@ -15,7 +15,7 @@
 """
 import re
 from ir import walk, strip, expr_str
-from engines import flatten_switch, call_args
+from engines import known_facts, flatten_switch, call_args
 
 PID = "C10"
 UNITS = dict(components={"cllazyfile", "cleditor", "clstepcore"})
@@ -189,6 +189,31 @@ def r2_scanner(prog, res):
     ok = bool(lits) and bool(rec)
     res.add("R2.search_skips_strings_and_comments", "R2|src/cllazyfile/sectionReader.cc|findNormalString|skips", g.where(), ok,
             "the token search steps over string literals and comments" if ok else "findNormalString no longer steps over strings/comments")
+    # ... but not while it is itself looking for the end of a comment: every caller that skips a comment does so through
+    # findNormalString( "*/" ), and inside a comment an apostrophe or a further "/*" means nothing.  The string skip and the
+    # recursive comment skip must therefore be switched off by a test that depends on the searched text being "*/".
+    def comment_mode_flags():
+        out = set()
+        for x in g.walk():
+            if x["k"] == "Var" and x.get("ch") and x["ch"][0] is not None and any(y["k"] == "Str" and y.get("s") == "*/" for y in walk(x["ch"][0])) and \
+                    any(y["k"] == "Ref" and y.get("d") == g.params[0]["d"] for y in walk(x["ch"][0])):
+                out.add(x["d"])
+        return out
+    flags = comment_mode_flags()
+    for what, calls_ in (("string skip (GetLiteralStr)", lits), ("nested comment skip (recursive call)", rec)):
+        for c in calls_:
+            guarded = False
+            for cn, pol in known_facts(g, c):
+                cn0 = strip(cn)
+                refs = [y for y in walk(cn0)] if cn0 is not None else []
+                if any(y["k"] == "Ref" and y.get("d") in flags for y in refs) and pol is False:
+                    guarded = True
+                if any(y["k"] == "Str" and y.get("s") == "*/" for y in refs) and any(y["k"] == "Ref" and y.get("d") == g.params[0]["d"] for y in refs):
+                    guarded = True
+            res.add("R2.comment_text_is_opaque", "R2|src/cllazyfile/sectionReader.cc|findNormalString|%s" % what.split(" (")[0], g.where(c), guarded,
+                    "the %s is switched off while the end of a comment is searched" % what if guarded else
+                    "while findNormalString( \"*/\" ) looks for the end of a comment it still performs the %s: an apostrophe inside a comment "
+                    "swallows text up to the next apostrophe (instances vanish from the index), and every further \"/*\" recurses" % what)
 
 
 def r3_cache(prog, res):
